@@ -42,6 +42,12 @@ func (e *enc) calleeKey(cc *ssa.CallCommon) (string, *ssa.Function) {
 
 func (e *enc) call(b *ssa.BasicBlock, c *ssa.Call) {
 	e.callCommon(b, c, &c.Call, c, e.reach[b])
+	if _, isBuiltin := c.Call.Value.(*ssa.Builtin); !isBuiltin {
+		if n, ok := e.names[c]; ok {
+			// whatever a call returns exists when it returns
+			e.allocFacts(n, c.Type())
+		}
+	}
 	if k := e.callKeyOf(&c.Call); k != "" {
 		if n, ok := e.names[c]; ok {
 			if _, isTuple := c.Type().(*types.Tuple); !isTuple {
@@ -133,6 +139,35 @@ func (e *enc) callCommon(b *ssa.BasicBlock, ins ssa.Instruction, cc *ssa.CallCom
 		}
 	}
 	e.ioCallCheck(ins, key, callee, R)
+	// a method that may rely on its interface contract's preconditions: static callers prove them too
+	if callee.Signature.Recv() != nil && len(args) > 0 && callee.Pkg != nil && e.w.InRepo[callee.Pkg] {
+		for _, ii := range e.ifaceContractsOf(callee) {
+			if len(ii.fc.Requires) == 0 {
+				continue
+			}
+			env := e.newEnv()
+			env.pkg = ii.fc.Pkg
+			env.st, env.old = e.heap, e.heap
+			env.vars["this"] = cval{e.mkIface(args[0], cc.Args[0].Type()), "Iface", ii.tn.Type()}
+			for i := 0; i < ii.sig.Params().Len() && i+1 < len(args); i++ {
+				pt := callee.Signature.Params().At(i).Type()
+				cv := cval{args[i+1], e.sortOf(pt), pt}
+				if n := ii.sig.Params().At(i).Name(); n != "" && n != "_" {
+					env.vars[n] = cv
+				}
+				env.vars[fmt.Sprintf("arg%d", i)] = cv
+			}
+			for _, c := range ii.fc.Requires {
+				t, err := env.boolTerm(c.Expr)
+				if err != nil {
+					e.contractError(c, err)
+					continue
+				}
+				o := e.addI("pre", key+":iface:"+c.Label, ins, R, t)
+				o.Callee = key
+			}
+		}
+	}
 	switch key {
 	case "fmt.Sprintf":
 		if t, ok := e.sprintfModel(cc); ok && res != nil {
@@ -288,6 +323,28 @@ func (e *enc) builtin(b *ssa.BasicBlock, ins ssa.Instruction, bi *ssa.Builtin, c
 			e.assume(fmt.Sprintf("(< (birth (arr %s)) %s)", n, nn))
 			return
 		}
+		if vals, ok := e.varargValues(cc.Args[1]); ok && y != "" && len(vals) > 0 && len(vals) <= 8 {
+			// append(x, a, b, ...): quantifier free. In place: a store chain on x's array; otherwise the
+			// fresh array is given as a lambda (copy of x followed by the new elements).
+			A := fmt.Sprintf("(select %s (arr %s))", old, x)
+			ip := A
+			kk := e.newName("k")
+			fr := fmt.Sprintf("(select (select %s (arr %s)) %s)", old, n, kk)
+			for j := len(vals) - 1; j >= 0; j-- {
+				fr = fmt.Sprintf("(ite (= %s %s) %s %s)", kk, e.iadd("(len "+x+")", e.ilit(int64(j))), e.val(vals[j]), fr)
+			}
+			for j, v := range vals {
+				ip = fmt.Sprintf("(store %s %s %s)", ip, e.iadd(e.iadd("(off "+x+")", "(len "+x+")"), e.ilit(int64(j))), e.val(v))
+			}
+			fr = fmt.Sprintf("(lambda ((%s %s)) (ite (and %s %s) (select %s %s) %s))", kk, e.isort(),
+				e.icmp(token.GEQ, kk, e.ilit(0), false), e.icmp(token.LSS, kk, "(len "+x+")", false), A, e.iadd("(off "+x+")", kk), fr)
+			e.assume(fmt.Sprintf("(= %s (ite %s (store %s (arr %s) %s) (store %s (arr %s) %s)))", nv, inPlace, old, x, ip, old, n, fr))
+			oldNow := e.now(e.heap)
+			nn := e.bump("G_now")
+			e.assume(fmt.Sprintf("(> %s %s)", nn, oldNow))
+			e.assume(fmt.Sprintf("(< (birth (arr %s)) %s)", n, nn))
+			return
+		}
 		k := e.newName("k")
 		ks := e.isort()
 		ge0 := e.icmp(token.GEQ, k, e.ilit(0), false)
@@ -298,7 +355,8 @@ func (e *enc) builtin(b *ssa.BasicBlock, ins ssa.Instruction, bi *ssa.Builtin, c
 		e.assume(fmt.Sprintf("(=> %s (forall ((%s %s)) (! (=> (or %s %s) (= (select (select %s (arr %s)) %s) (select (select %s (arr %s)) %s))) :pattern ((select (select %s (arr %s)) %s)))))",
 			inPlace, k, ks, e.icmp(token.LSS, k, "(off "+x+")", false), e.icmp(token.GEQ, k, e.iadd("(off "+x+")", e.iadd("(len "+x+")", ylen)), false),
 			nv, n, k, old, x, k, nv, n, k))
-		if y != "" {
+		if false {
+		} else if y != "" {
 			ltY := e.icmp(token.LSS, k, ylen, false)
 			e.assume(fmt.Sprintf("(forall ((%s %s)) (! (=> (and %s %s) (= (select (select %s (arr %s)) %s) (select (select %s (arr %s)) %s))) :pattern ((select (select %s (arr %s)) %s))))",
 				k, ks, ge0, ltY, nv, n, e.iadd(e.iadd("(off "+n+")", "(len "+x+")"), k), old, y, e.iadd("(off "+y+")", k), old, y, e.iadd("(off "+y+")", k)))
@@ -379,6 +437,10 @@ func (e *enc) applyContractFn(ins ssa.Instruction, fc *FuncContract, key string,
 func (e *enc) applyContract(ins ssa.Instruction, fc *FuncContract, key string, sig *types.Signature, recv string, recvT types.Type, args []string, argVals []ssa.Value, res ssa.Value, R string) {
 	env := e.newEnv()
 	env.pkg = fc.Pkg
+	if e.usedFCs == nil {
+		e.usedFCs = map[*FuncContract]string{}
+	}
+	e.usedFCs[fc] = key
 	if recv != "" {
 		name := "this"
 		if sig.Recv() != nil && sig.Recv().Name() != "" && sig.Recv().Name() != "_" {
@@ -507,7 +569,11 @@ func (e *enc) havocPerAssigns(ins ssa.Instruction, fc *FuncContract, env *cenv) 
 		exc := append([]string{strings.TrimPrefix(assigns[0], "* except ")}, assigns[1:]...)
 		e.havocHeap(func(arr string) bool {
 			for _, p := range exc {
-				if matchArr(strings.TrimSpace(p), arr) {
+				p = strings.TrimSpace(p)
+				if k := strings.Index(p, "@"); k > 0 {
+					p = p[:k] // checked per implementer against the slices' origin fields (frame:assigns)
+				}
+				if matchArr(p, arr) {
 					return true
 				}
 			}
@@ -550,6 +616,9 @@ func (e *enc) havocPerAssigns(ins ssa.Instruction, fc *FuncContract, env *cenv) 
 
 // matchArr: pattern forms "T.f" (field f of struct T, package-qualified or not), "Elems", "Maps", "Cells", "Globals", exact array name, "T.*".
 func matchArr(p, arr string) bool {
+	if k := strings.Index(p, "@"); k > 0 {
+		return false // field-qualified entries are handled where frames are applied / checked
+	}
 	switch p {
 	case "Elems":
 		return strings.HasPrefix(arr, "Elems_")
@@ -617,7 +686,11 @@ func (e *enc) ret(b *ssa.BasicBlock, r *ssa.Return) {
 	e.retVals, e.retTypes = rets, rts
 	e.siteAsserts(r, "return", nil, nil, R)
 	e.retVals, e.retTypes = nil, nil
-	if e.fc == nil || e.fc.Trusted {
+	if e.fc != nil && e.fc.Trusted {
+		return
+	}
+	e.ifaceEnsuresObls(r, R, rets, rts)
+	if e.fc == nil {
 		return
 	}
 	env := e.resultEnv(rets, rts)
@@ -808,6 +881,9 @@ func (e *enc) siteAsserts(ins ssa.Instruction, site string, sig *types.Signature
 		}
 		e.usedSites[site] = true
 		env := e.siteEnv(ins)
+		for k, v := range e.siteExtra {
+			env.vars[k] = v
+		}
 		if site == "return" {
 			renv := e.resultEnv(e.retVals, e.retTypes)
 			for k, v := range renv.vars {
